@@ -54,6 +54,13 @@ for i in range(S.budget):
         S.violation('C05:Xi-reported', f"reported slip {r.get('Xi')} != slip_ratio {Xi}", input=where)
     if r['regime'] == 'FB' or name == 'fixed bed':
         S.violation('C05:fixed-bed', f"delivered-concentration result reports the fixed-bed regime ({r['regime']}, {name})", input=where)
+    if inner['regime'] == 'FB':
+        want_regime = 'SB' if r['SB'] < r['He'] else 'He'
+        S.count(None, 'inner-FB')
+        if r['regime'] != want_regime:
+            S.violation('C05:remap', f"inner regime is FB: the reported regime must be the smaller of SB ({r['SB']}) and He ({r['He']}), got {r['regime']}", input=where)
+    elif r['regime'] != inner['regime']:
+        S.violation('C05:regime', f"reported regime {r['regime']} differs from the inner regime {inner['regime']}", input=where)
     if r['regime'] in r and r[r['regime']] != val:
         S.violation('C05:value', 'scalar result is not the value of the reported regime', input=where)
     S.count(a, 'inner:' + inner['regime'])
